@@ -69,6 +69,9 @@ func init() {
 }
 
 func runC09(p *chk.Prog, r *chk.Report) {
+	// a Set always replaces the pending set (PENDING, shared with C17)
+	c17Pending(p, r)
+	handlerReadonlyRule(p, r)
 	c17WholeWithdraw(p, r)
 	membershipRule(p, r)
 	c09RefusalRetried(p, r)
@@ -462,12 +465,53 @@ func c09Resync(p *chk.Prog, r *chk.Report) {
 		}
 		es := g.EdgesImplying(chk.GBool(true, changed))
 		x.Check("SetNode:availability-branch", sn.Pos(), len(es) == 1, "", "the result of isNodeAvailableChanged(c.nodes, node) - for any node, not only the local one - does not decide the re-sync")
+		// the answer prepared in a local (`onSuccess := Success; if changed { onSuccess = ReprocessAll }; ..; return
+		// onSuccess`): in the executions in which the availability changed, the only values that reach the return are
+		// ReprocessAll (or the error of a failed handler)
+		unchangedEdge := func(b *cfgBlock, k int) bool { return g.EdgeImplies(b, k, chk.GBool(false, changed)) }
+		viaLocal := func(rt chk.Site) bool {
+			res := retResults(rt)
+			if len(res) != 1 {
+				return false
+			}
+			id, isId := ast.Unparen(res[0]).(*ast.Ident)
+			if !isId || sn.ConstVal(id) != nil {
+				return false
+			}
+			if v, isVar := sn.ObjOf(id).(*types.Var); !isVar || v.IsField() || v.Pkg() == nil || v.Parent() == v.Pkg().Scope() {
+				return false
+			}
+			defs, entry := g.ReachingDefsUnder(id, rt, unchangedEdge)
+			if entry || len(defs) == 0 {
+				return false
+			}
+			for _, d := range defs {
+				as, isAs := d.(*ast.AssignStmt)
+				if !isAs || len(as.Lhs) != 1 || len(as.Rhs) != 1 || !isObjNamed(sn, ctrlPkg+".SyncStateReprocessAll", ctrlPkg+".SyncStateError")(as.Rhs[0]) {
+					return false
+				}
+			}
+			return true
+		}
 		for _, e := range es {
 			w := g.BranchAlways(e, func(n ast.Node) bool {
 				rs, ok := n.(*ast.ReturnStmt)
 				return ok && len(rs.Results) == 1 && isObjNamed(sn, ctrlPkg+".SyncStateReprocessAll")(rs.Results[0])
 			})
-			x.Check("SetNode:changed-availability-reprocesses", posOf(w, sn), !w.Found, "", "a changed node availability does not request a re-sync")
+			okRe := !w.Found
+			if !okRe {
+				okRe = true
+				for _, rt := range g.Returns() {
+					res := retResults(rt)
+					if len(res) == 1 && isObjNamed(sn, ctrlPkg+".SyncStateReprocessAll", ctrlPkg+".SyncStateError")(res[0]) {
+						continue
+					}
+					if !viaLocal(rt) && !g.Dominated(rt, chk.GBool(false, changed)) {
+						okRe = false
+					}
+				}
+			}
+			x.Check("SetNode:changed-availability-reprocesses", posOf(w, sn), okRe, "", "a changed node availability does not request a re-sync")
 		}
 		store := g.Find(sn.IsAssignPat("RECV.nodes[N.Name]", "N", chk.H("N", node)))
 		x.Check("SetNode:stores-node", sn.Pos(), len(store) == 1, "", "the node is not stored")
@@ -482,7 +526,7 @@ func c09Resync(p *chk.Prog, r *chk.Report) {
 			if len(res) != 1 || isObjNamed(sn, ctrlPkg+".SyncStateReprocessAll", ctrlPkg+".SyncStateError")(res[0]) {
 				continue
 			}
-			x.Check("SetNode:other-result-needs-unchanged-availability", rt.Pos(), g.Dominated(rt, chk.GBool(false, changed)), "",
+			x.Check("SetNode:other-result-needs-unchanged-availability", rt.Pos(), g.Dominated(rt, chk.GBool(false, changed)) || viaLocal(rt), "",
 				"SetNode can answer without a re-sync although isNodeAvailableChanged(c.nodes, node) is true (extra condition on the re-sync)")
 		}
 	}
